@@ -28,6 +28,7 @@ def main():
     prop, letter = sys.argv[1], sys.argv[2]
     budget = int(sys.argv[sys.argv.index("--budget") + 1]) if "--budget" in sys.argv else 40
     check_args = sys.argv[sys.argv.index("--check-args") + 1 :] if "--check-args" in sys.argv else []
+    check_prop = sys.argv[sys.argv.index("--check-prop") + 1] if "--check-prop" in sys.argv else prop
     src = f"/tmp/mut/{prop}-out"
     patch = os.path.join(src, f"{letter}.patch.diff")
     demo = os.path.join(src, f"demo_{letter}.py")
@@ -60,8 +61,17 @@ def main():
             meta["baseline"] = line[-1] if line else b.stdout[-200:]
             meta["ran"].append("tools/baseline.py <worktree>: " + meta["baseline"])
         t0 = time.time()
-        c = sh([os.path.join(VERIF, "check"), prop, "--budget", str(budget), "--no-evidence", *check_args], env=dict(os.environ, VERIF_REPO_SRC=os.path.join(wt, "src")), timeout=budget * 8 + 900)
+        c = sh([os.path.join(VERIF, "check"), check_prop, "--budget", str(budget), "--no-evidence", *check_args], env=dict(os.environ, VERIF_REPO_SRC=os.path.join(wt, "src")), timeout=budget * 8 + 900)
         keys = sorted({l.split("key=")[1].strip() for l in c.stdout.splitlines() if "key=" in l and "clause=" in l})
+        if check_prop != prop:
+            meta.setdefault("other_checks", {})[check_prop] = {"exit": c.returncode, "keys": keys[:6]}
+            print(json.dumps(meta["other_checks"], indent=1))
+            mp = os.path.join(VERIF, "seeded", f"{prop}-{letter}", "meta.json")
+            if os.path.exists(mp):
+                prev = json.load(open(mp))
+                prev.setdefault("other_checks", {}).update(meta["other_checks"])
+                json.dump(prev, open(mp, "w"), indent=1)
+            return 0
         meta["check_exit"] = c.returncode
         meta["check_keys"] = keys[:8]
         meta["check_wall_s"] = round(time.time() - t0, 1)
